@@ -6,6 +6,7 @@
    differential rendering in tools/checks/c19.py (partial). *)
 From Coq Require Import String.
 From Verif Require Import JinjaScan JinjaScanThm JinjaLinePrefixThm JinjaRules Gen_JinjaRules JinjaRulesThm JinjaPins JinjaPinsThm.
+From Verif Require Import JinjaVendorPins Gen_JinjaVendor JinjaVendorThm JinjaRx Gen_JinjaRx JinjaRxThm JinjaPipe JinjaPipeThm.
 Open Scope N_scope.
 
 (* (1) Conservativity of the lexer modification.  For EVERY source that contains no occurrence of an opener followed by
@@ -18,17 +19,7 @@ Theorem C19_scan_conservative :
 Proof. exact scan_conservative_lemma. Qed.
 Print Assumptions C19_scan_conservative.
 
-(* The hypothesis is necessary, also for "{#*": a COMMENT that merely starts with `*` loses the blanks before it in the
-   bundled engine (known finding F-JINJA-COMMENT-STAR: the template contains neither "{%*" nor "{{*").  Stated about the
-   quirk-faithful rule set `model_bundled_rules_q true`; JinjaScanThm.rules_shape decides on every run whether the regenerated
-   rules are that set or the repaired one (`_q false`), and every other theorem here holds in both cases.
-   Witness: "a  {#* c #}b" -- bundled data token "a", stock data token "a  ". *)
-Theorem C19_scan_conservative_refuted :
-  exists (src : str),
-    has_marker_documented src = false /\
-    scan_all py_uni (model_bundled_rules_q true) (fun _ _ => Some ([], 7%nat)) src <> scan_stock (fun _ _ => Some ([], 7%nat)) src.
-Proof. exact comment_star_refuted. Qed.
-Print Assumptions C19_scan_conservative_refuted.
+(* (the refutation of the weaker hypothesis for the pre-8b27d3f comment rule now lives in History/C19_history.v) *)
 
 (* non-vacuity: sources with every delimiter kind, whitespace control and raw satisfy the hypothesis, and the scanners
    produce tokens on them *)
@@ -210,3 +201,139 @@ Theorem C19_extensions_pinned_and_stateless :
   ext_state_stores = [].
 Proof. exact extensions_pinned_lemma. Qed.
 Print Assumptions C19_extensions_pinned_and_stateless.
+
+
+(* (9) THE WHOLE VENDORED COPY.  What "conservative extension" is proved against, and what is only pinned:
+   - proved (theorems (1)-(8), (10)): the DOCUMENTED deltas -- lexer root rule (marker alternative), Parser.subparse (autoindent),
+     filters.do_lineprefix + its FILTERS entry, and nunavut/jinja/extensions.py -- against a model of upstream behaviour in which
+     every unmodified part is a parameter;
+   - pinned only: every other function of the 27 vendored modules has a committed shape digest (733 entries,
+     Gen/JinjaVendorPins.v): any edit breaks this obligation and must be classified {documented-delta, neutral} there.  The
+     upstream commit of /repo/subtree.json is not available offline, so the digests are NOT compared with upstream 2.11; the
+     installed 3.1.x is a structural reference only (version caveat): 272 functions are shape-identical to it.
+   - the documented-delta list is not "found by reading": it is re-derived on every run from the tree's own evidence (marker
+     comments / docstrings / identifiers, package-rename strings written by embed_jinja.py, commits of the directory's git log)
+     and must equal the committed list. *)
+Theorem C19_vendored_copy_pinned : pairs_eqb vendored_digests expected_vendored = true.
+Proof. exact vendored_all_pinned_lemma. Qed.
+Print Assumptions C19_vendored_copy_pinned.
+
+Theorem C19_documented_deltas_are_the_self_documented_sites : map fst documented_sites = documented_delta_keys.
+Proof. exact documented_sites_lemma. Qed.
+Print Assumptions C19_documented_deltas_are_the_self_documented_sites.
+
+Theorem C19_documented_deltas_differ_from_reference :
+  forallb (fun k => match assoc k vendored_digests with Some d => negb (eq_stock31 (k, d)) | None => false end) documented_delta_keys = true.
+Proof. exact documented_deltas_differ_from_reference_lemma. Qed.
+Print Assumptions C19_documented_deltas_differ_from_reference.
+
+Example C19_vendored_reference_counts :
+  (length (filter eq_stock31 vendored_digests) >= 270)%nat /\ length vendored_digests = 733%nat.
+Proof. exact verbatim_reference_count_lemma. Qed.
+
+(* (10) END TO END over the template text (Gen/JinjaPipe.v): scanner (ANY rule list, so every regenerated option combination:
+   lstrip_blocks x trim_blocks, line statement prefixes, other delimiters; keep_trailing_newline only changes the source) ->
+   wrap -> subparse (with nested bodies) -> rendering with a context.
+   (10a) scanner: deleting the auto-indent alternatives changes nothing where none of them matches (exact hypothesis). *)
+Theorem C19_scanner_conservative_every_rule_set :
+  forall (rules : xrules) (inner : str -> option N -> str -> option (list xtok * nat)) (src : str),
+    marker_free py_uni rules None src = true ->
+    scanx_all py_uni rules inner src = scanx_all py_uni (demarkx rules) inner src.
+Proof. intros rules inner src H. exact (scanx_conservative_lemma py_uni rules inner _ None src H). Qed.
+Print Assumptions C19_scanner_conservative_every_rule_set.
+
+(* the regenerated rule lists of all 8 option combinations carry marker alternatives exactly on raw/variable/block (and line
+   prefixes), never on comments; and the theorem is about them in particular *)
+Example C19_regenerated_rule_sets :
+  length root_rules_x = 8%nat /\
+  forallb (fun rs => forallb (fun nr => Bool.eqb (match marker_of (snd nr) with Some _ => true | None => false end)
+                                                 (negb (str_eqb (fst nr) n_comment))) rs) root_rules_x = true.
+Proof. vm_compute. split; reflexivity. Qed.
+
+Example C19_marker_free_examples :
+  marker_free py_uni (nth 3 root_rules_x []) None [97; 10; 32; 32; 123; 37; 43; 32; 120; 32; 37; 125; 10; 123; 35; 42; 42; 32; 35; 125; 123; 123; 32; 121; 32; 125; 125] = true /\
+  marker_free py_uni (nth 3 root_rules_x []) None [32; 123; 123; 42; 32; 121; 32; 125; 125] = false.
+Proof. vm_compute. split; reflexivity. Qed.
+
+(* (10b) WITHOUT the marker: bundled rules + bundled parser + rendering = upstream rules + upstream parser + rendering, for every
+   rule list, every behaviour of the unmodified lexer states / parse_tuple / parse_statement (assumed only to consume tokens
+   forwards and to use the recursive subparse on their own input), every evaluation, text conversion, statement semantics and
+   context.  Second hypothesis: no begin token of the upstream token stream ends in `*` (true unless a delimiter itself does). *)
+Theorem C19_pipeline_conservative :
+  forall (E St C V : Type)
+         (pt : list xtok -> option (E * list xtok))
+         (ps : (list str -> list xtok -> option (list (pnode E St) * list xtok)) -> list xtok -> option (list St * list xtok)),
+    (forall toks e rest, pt toks = Some (e, rest) -> tsuffix rest toks) ->
+    (forall cb toks ss rest, ps cb toks = Some (ss, rest) -> tsuffix rest toks) ->
+    (forall cb1 cb2 toks, (forall ends t, tsuffix t toks -> cb1 ends t = cb2 ends t) -> ps cb1 toks = ps cb2 toks) ->
+    forall (ev : E -> C -> option V) (text : V -> str)
+           (rs : (list (pnode E St) -> C -> option (str * C)) -> St -> C -> option (str * C))
+           (rules : xrules) (inner : str -> option N -> str -> option (list xtok * nat)) (fuel : nat) (src : str) (c : C),
+      marker_free py_uni rules None src = true ->
+      (forall toks, scanx_all py_uni (demarkx rules) inner src = Some toks -> no_marker_tokens (wrap toks) = true) ->
+      pipeline E St C V token_is_marker pt ps ev text rs py_uni rules inner fuel src c =
+      pipeline E St C V (fun _ => false) pt ps ev text rs py_uni (demarkx rules) inner fuel src c.
+Proof.
+  intros E St C V pt ps H1 H2 H3 ev text rs rules inner fuel src c.
+  exact (pipeline_conservative_lemma E St C V pt ps H1 H2 H3 ev text rs py_uni rules inner fuel src c).
+Qed.
+Print Assumptions C19_pipeline_conservative.
+
+(* (10c) WITH the marker, print statement: the token `w{{*` makes the bundled parser build Filter(e, lineprefix, w) where the
+   upstream parser builds e for `{{`, and the output is the text of the value -- ANY value (non-strings, multi-line, empty,
+   Markup: whatever `text` = soft_unicode/to_string yields) -- with every non-empty line prefixed by w (C19_lineprefix_spec),
+   followed by the identical rest in the identical context. *)
+Theorem C19_autoindent_print_parse :
+  forall (E St : Type) pt ps f ends w x te (e : E) ve rest,
+    pt te = Some (e, (K_VAREND, ve) :: rest) ->
+    subparse E St token_is_marker pt ps (S f) ends ((n_variable, w ++ [LBRACE; x; STAR]) :: te) =
+    match subparse E St token_is_marker pt ps f ends rest with
+    | Some (ns, r) => Some (PPrint (NFilter e autoindent_filter_name w) :: ns, r)
+    | None => None
+    end.
+Proof. exact subparse_marker_print. Qed.
+Print Assumptions C19_autoindent_print_parse.
+
+Theorem C19_autoindent_print_render :
+  forall (E St C V : Type) (ev : E -> C -> option V) (text : V -> str) rs cb (e : E) (w : str) ns (c : C),
+    render_list E St C V ev text rs cb (PPrint (NFilter e autoindent_filter_name w) :: ns) c =
+    match ev e c with
+    | Some v => match render_list E St C V ev text rs cb ns c with Some (o, c') => Some (do_lineprefix (text v) w ++ o, c') | None => None end
+    | None => None
+    end /\
+    render_list E St C V ev text rs cb (PPrint (NPlain e) :: ns) c =
+    match ev e c with
+    | Some v => match render_list E St C V ev text rs cb ns c with Some (o, c') => Some (text v ++ o, c') | None => None end
+    | None => None
+    end.
+Proof. exact autoindent_print_render. Qed.
+Print Assumptions C19_autoindent_print_render.
+
+(* (10d) WITH the marker, block statement: output of the statements prefixed line by line, but rendered in an inner frame: the
+   rest of the template is rendered in the context BEFORE the block (upstream: in the context the statements leave behind). *)
+Theorem C19_autoindent_block_render :
+  forall (E St C V : Type) (ev : E -> C -> option V) (text : V -> str) rs cb (ss : list St) (w : str) ns (c : C),
+    render_list E St C V ev text rs cb (PFilterBlock ss autoindent_filter_name w :: ns) c =
+    match render_stmts E St C rs cb ss c with
+    | Some (o, _) => match render_list E St C V ev text rs cb ns c with Some (o2, c2) => Some (do_lineprefix o w ++ o2, c2) | None => None end
+    | None => None
+    end /\
+    render_list E St C V ev text rs cb (map PStmt ss ++ ns) c =
+    match render_stmts E St C rs cb ss c with
+    | Some (o, c') => match render_list E St C V ev text rs cb ns c' with Some (o2, c2) => Some (o ++ o2, c2) | None => None end
+    | None => None
+    end.
+Proof. exact autoindent_block_render. Qed.
+Print Assumptions C19_autoindent_block_render.
+
+(* hence "renders as the plain construct, prefixed" is FALSE for marker block statements that bind names (set, macro, import):
+   finding F-JINJA-AUTOINDENT-SCOPE, reproduced on the real engine (`  {%* set y = 5 %}[{{ y }}]` renders `[]`, plain `[5]`) *)
+Theorem C19_autoindent_block_scope_refuted :
+  exists (cb : list (pnode unit N) -> N -> option (str * N)),
+    let ev := fun (_ : unit) (c : N) => Some c in
+    let text := fun (v : N) => [v] in
+    let rs := fun (_ : list (pnode unit N) -> N -> option (str * N)) (s : N) (_ : N) => Some (@nil N, s) in
+    option_map fst (render_list unit N N N ev text rs cb (PFilterBlock [5] autoindent_filter_name [32] :: [PPrint (NPlain tt)]) 0) <>
+    option_map fst (render_list unit N N N ev text rs cb (map PStmt [5] ++ [PPrint (NPlain tt)]) 0).
+Proof. exact autoindent_block_scope_refuted. Qed.
+Print Assumptions C19_autoindent_block_scope_refuted.
